@@ -1,8 +1,8 @@
 """Which verifier runs decide which property (DESIGN.md section 5)."""
 
 LANG = 'Rust value semantics: a safe method without globals / interior mutability is a function of its arguments (used for "equal states evolve equally" and for the per-channel functionality in C15)'
-B1 = 'bridge B1/B2 (trait ShortMessage / ShortMessageFactory contract) is assumed in the Verus units and proved for RawShortMessage, StructuredShortMessage and two foreign implementors by the Kani unit k_short'
-B3 = 'bridge B3: scanner new()/default() are external_body in Verus (derived Default has no Verus spec); their postcondition is proved by the Kani unit k_frame'
+B1 = 'bridge B1/B2 (trait ShortMessage / ShortMessageFactory contract) is assumed in the Verus units and proved in the same check for RawShortMessage, StructuredShortMessage and two foreign implementors by the Kani harnesses bridge_b1_* / bridge_b2_*'
+B3 = 'bridge B3: scanner new()/default() are external_body in Verus (derived Default has no Verus spec); their postcondition is proved in the same check by the Kani harnesses *_b3_new'
 VERUS_TB = ['Verus 0.2026.09.13 + Z3 (SMT encoding, vstd specifications of Option/Result/array/slice::IterMut/From)',
             'the extractor /verif/tools/extract.py (guarded by the per-item token round-trip check on every run)',
             'derived PartialEq/Eq/Clone/Copy are structural (Structural marker added)']
@@ -38,18 +38,18 @@ prop('C06', [k('k_short', 'C06')], [FOREIGN], KANI_TB)
 prop('C04', [k('k_newtype', 'C04'), k('k_newtype', 'C04', 'none'), v('v_msg', 'C04'), v('v_cc14', 'C04'), v('v_nrpn', 'C04'), v('v_poll', 'C04')],
      ['restricted-integer inputs of every harness / contract are assumed in range (type invariant as precondition)', B1], VERUS_TB + KANI_TB)
 prop('C05', [k('k_newtype', 'C05')], ['Hash agreement with the numeric value is not examined (derived)'], KANI_TB)
-prop('C07', [v('v_cc14', 'C07')], [B1, B3], VERUS_TB)
-prop('C08', [v('v_cc14', 'C08')], [B1, B3], VERUS_TB)
-prop('C09', [v('v_msg', 'C09')], [B1], VERUS_TB)
-prop('C10', [v('v_nrpn', 'C10')], [B1, B3], VERUS_TB)
-prop('C11', [v('v_nrpn', 'C11')], [B1, B3], VERUS_TB)
-prop('C12', [v('v_poll', 'C12')], [B1, B3, CLOCK], VERUS_TB)
-prop('C13', [v('v_poll', 'C13')], [B1, B3, CLOCK, FEEDCLOCK], VERUS_TB)
-prop('C14', [v('v_poll', 'C14')], [B1, B3, CLOCK], VERUS_TB)
-prop('C15', [v('v_cc14', 'C15'), v('v_nrpn', 'C15'), v('v_poll', 'C15')], [B1, B3, CLOCK, LANG], VERUS_TB)
-prop('C16', [v('v_cc14', 'C16'), v('v_nrpn', 'C16'), v('v_poll', 'C16'), v('v_msg', 'C16')], [B1, B3, CLOCK], VERUS_TB)
-prop('C17', [v('v_cc14', 'C17'), v('v_nrpn', 'C17'), v('v_poll', 'C17')], [B1, B3, CLOCK, LANG], VERUS_TB)
-prop('C18', [v('v_msg', 'C18'), v('v_cc14', 'C18'), v('v_nrpn', 'C18'), v('v_poll', 'C18')], [B1, B3, CLOCK], VERUS_TB)
+prop('C07', [v('v_cc14', 'C07'), k('k_bridge', 'C07')], [B1, B3], VERUS_TB)
+prop('C08', [v('v_cc14', 'C08'), k('k_bridge', 'C08')], [B1, B3], VERUS_TB)
+prop('C09', [v('v_msg', 'C09'), k('k_bridge', 'C09')], [B1], VERUS_TB)
+prop('C10', [v('v_nrpn', 'C10'), k('k_bridge', 'C10')], [B1, B3], VERUS_TB)
+prop('C11', [v('v_nrpn', 'C11'), k('k_bridge', 'C11')], [B1, B3], VERUS_TB)
+prop('C12', [v('v_poll', 'C12'), k('k_bridge', 'C12')], [B1, B3, CLOCK], VERUS_TB)
+prop('C13', [v('v_poll', 'C13'), k('k_bridge', 'C13')], [B1, B3, CLOCK, FEEDCLOCK], VERUS_TB)
+prop('C14', [v('v_poll', 'C14'), k('k_bridge', 'C14')], [B1, B3, CLOCK], VERUS_TB)
+prop('C15', [v('v_cc14', 'C15'), v('v_nrpn', 'C15'), v('v_poll', 'C15'), k('k_bridge', 'C15')], [B1, B3, CLOCK, LANG], VERUS_TB)
+prop('C16', [v('v_cc14', 'C16'), v('v_nrpn', 'C16'), v('v_poll', 'C16'), v('v_msg', 'C16'), k('k_bridge', 'C16')], [B1, B3, CLOCK], VERUS_TB)
+prop('C17', [v('v_cc14', 'C17'), v('v_nrpn', 'C17'), v('v_poll', 'C17'), k('k_bridge', 'C17')], [B1, B3, CLOCK, LANG], VERUS_TB)
+prop('C18', [v('v_msg', 'C18'), v('v_cc14', 'C18'), v('v_nrpn', 'C18'), v('v_poll', 'C18'), k('k_bridge', 'C18'), k('k_short', 'C18', thorough_only=True), k('k_newtype', 'C18', thorough_only=True), k('k_newtype', 'C18', 'none', thorough_only=True)], [B1, B3, CLOCK], VERUS_TB)
 
 # ----------------------------------------------------------------------------- manifest texts
 VNOTE = 'Trusted: Verus/Z3/vstd; the extractor (token round-trip check each run); bridge contracts B1-B3 (assumed in Verus, proved by Kani); clock model for the polling scanner; derived PartialEq structural. Listed in full in the evidence file (trusted_base, assumptions).'
